@@ -36,6 +36,34 @@ type inputs struct {
 	props   core.StepProps
 }
 
+// goNumbers gives whole numbers inside arrays the types Go code (or a script's result that
+// never went through JSON) gives them: int64 and int.  The snapshots are type-sensitive.
+func goNumbers(x interface{}, inArray bool, k int) interface{} {
+	switch t := x.(type) {
+	case float64:
+		if inArray && t == float64(int64(t)) {
+			if k%2 == 0 {
+				return int64(t)
+			}
+			return int(t)
+		}
+		return t
+	case map[string]interface{}:
+		m := make(map[string]interface{}, len(t))
+		for key, v := range t {
+			m[key] = goNumbers(v, false, k)
+		}
+		return m
+	case []interface{}:
+		a := make([]interface{}, len(t))
+		for i, v := range t {
+			a[i] = goNumbers(v, true, k+i)
+		}
+		return a
+	}
+	return x
+}
+
 func mkInputs(st ref.AState, pending []interface{}, limit int, withBP bool) *inputs {
 	in := &inputs{}
 	var bs match.Bindings
@@ -45,6 +73,22 @@ func mkInputs(st ref.AState, pending []interface{}, limit int, withBP bool) *inp
 	in.st = &core.State{NodeName: st.Node, Bs: bs}
 	if pending != nil {
 		in.pending = fw.Deep(pending).([]interface{})
+	}
+	// every third case (by content): Go-typed numbers in the arrays of state and messages
+	if len(fw.Canon(st.Bs))%3 == 1 {
+		if bs != nil {
+			in.st.Bs = match.Bindings(goNumbers(map[string]interface{}(bs), false, 0).(map[string]interface{}))
+		}
+		if in.pending != nil {
+			in.pending = goNumbers(in.pending, false, 1).([]interface{})
+			for i, p := range in.pending { // (the list of messages is not itself a value)
+				if f, ok := p.(int64); ok {
+					in.pending[i] = float64(f)
+				} else if f, ok := p.(int); ok {
+					in.pending[i] = float64(f)
+				}
+			}
+		}
 	}
 	in.ctl = &core.Control{Limit: limit}
 	if withBP {
